@@ -39,7 +39,7 @@ type c08Spec struct {
 	Shape  []int  `json:"shape"`           // kind-specific sizes
 	Raw    uint32 `json:"raw"`             // bit i: member i is a raw (xbus/xstar) endpoint
 	Dev    string `json:"dev,omitempty"`   // device flavour: same (Device(x,x)) | nil (Device(x,nil)) | manual | two (Device(x1,x2))
-	Tr     string `json:"tr,omitempty"`    // inproc | tcp | mix
+	Tr     string `json:"tr,omitempty"`    // inproc | ipc | tcp | mix (per link)
 	Rounds int    `json:"rounds"`          // data rounds
 	W      int    `json:"w"`               // max data messages per member per round
 	Procs  int    `json:"procs,omitempty"` // GOMAXPROCS during the case (0 = unchanged)
@@ -58,11 +58,25 @@ func TestC08(t *testing.T) {
 	rnd := r.Rand()
 	var cases []mon.CaseSpec
 	procs := []int{0, 0, 1, 2, 4}
-	trs := []string{"inproc", "tcp", "mix"}
+	// tcp is used sparingly: every connection leaves a TIME_WAIT entry for a minute and the
+	// machine-wide ephemeral port range is shared with the other checks; ipc exercises the same
+	// stream-transport code without that limit.
+	pickTr := func() string {
+		x := rnd.Intn(100)
+		switch {
+		case x < 50:
+			return "inproc"
+		case x < 72:
+			return "ipc"
+		case x < 72+r.Pick(10, 4):
+			return "tcp"
+		}
+		return "mix"
+	}
 	rounds := func() int { return r.Pick(5, 20) }
 	ntopo, nvt := r.Pick(3000, 60000), r.Pick(2000, 40000)
 	for i := 0; i < ntopo; i++ {
-		sp := c08Spec{Tr: trs[rnd.Intn(3)], Rounds: rounds(), W: 16, Procs: procs[rnd.Intn(len(procs))], Raw: rnd.Uint32()}
+		sp := c08Spec{Tr: pickTr(), Rounds: rounds(), W: 16, Procs: procs[rnd.Intn(len(procs))], Raw: rnd.Uint32()}
 		switch x := rnd.Intn(100); {
 		case x < 20:
 			sp.Fam, sp.Kind, sp.Shape = "bus", "mesh", []int{2 + rnd.Intn(4)}
@@ -400,7 +414,7 @@ func c08Topo(c *mon.Case, sp c08Spec) {
 		l := &g.links[i]
 		l.tr = sp.Tr
 		if sp.Tr == "mix" {
-			l.tr = []string{"inproc", "tcp"}[c.Rand.Intn(2)]
+			l.tr = []string{"inproc", "inproc", "ipc", "ipc", "tcp"}[c.Rand.Intn(5)]
 		}
 		a, as, b, bs := l.a, l.as, l.b, l.bs
 		if c.Rand.Intn(2) == 0 { // either end may be the listener
@@ -660,7 +674,7 @@ func c08Topo(c *mon.Case, sp c08Spec) {
 func linkTrs(g *c08Graph) string {
 	var s []string
 	for _, l := range g.links {
-		s = append(s, l.tr[:1])
+		s = append(s, l.tr[1:2]) // n=inproc p=ipc c=tcp
 	}
 	sort.Strings(s)
 	return strings.Join(s, "")
